@@ -82,6 +82,15 @@ def oracle_c09(h, cfg_maxid):
     for e in (h.points[-1][1]['events'] if h.points else []):
         if e[0] == 8 and not (0 <= e[1] <= cfg_maxid):
             out.append(('id-beyond-max', 'handed out id %d > %d' % (e[1], cfg_maxid), len(h.points) - 1))
+    for w in h.wfr_results:
+        if 'error' in w:
+            out.append(('wait_for_responses.failed', 'wait_for_responses raised %s' % w['error'], len(h.points) - 1))
+        elif w['streams_of_results'] != w['sent']:
+            out.append(('wait_for_responses.misrouted-result', 'wait_for_responses sent its messages on streams %r but returned, in message order, the responses '
+                        'that arrived on streams %r: a message got another message\'s response' % (w['sent'], w['streams_of_results']), len(h.points) - 1))
+    for (r, i, tok) in h.foreign_drops:
+        out.append(('timeout-dropped-foreign-request', 'the client timeout of request %r removed the handler of request %r, which is outstanding on stream %d '
+                    '(stale ResponseFuture._req_id), and orphaned its stream: the response to %r will be discarded' % (r, tok, i, tok), len(h.points) - 1))
     for (i, tok, expect) in h.misrouted:
         out.append(('misrouted', 'response for request %r on stream %d delivered to callback %r' % (expect, i, tok), len(h.points) - 1))
     return out
@@ -178,6 +187,10 @@ class Gen(object):
         if a == 'query':
             act = {'a': 'query', 'r': self.fresh(), 'in_cb': self.nested_choice('in_cb'),
                    'after_check': self.nested_choice('after_check')}
+            if rng.random() < p.get('fastreply', 0.15):
+                # the node's answer is processed by the event thread as soon as the message is pushed,
+                # before the sending thread has executed the rest of send_msg
+                act['at_push'] = [{'a': 'respond_tok', 'r': act['r']}]
         elif a == 'borrow':
             act = {'a': 'borrow', 'r': self.fresh()}
         elif a == 'send':
